@@ -264,6 +264,11 @@ func ivalHandler(args []string) (string, []string) {
 		}
 		orig := cloneIvs(l)
 		r := l.Humanize()
+		if !equalIvs(orig, l) {
+			ps.add("C13", "list=%s Humanize changed the list it was given to %s", args[1], showIvs(l))
+		} else if r2 := l.Humanize(); !equalIvs(r2, r) {
+			ps.add("C13", "list=%s Humanize gives %s the first time and %s the second time", args[1], showIvs(r), showIvs(r2))
+		}
 		for _, x := range lattice(orig, r) {
 			if memL(x, orig) != memL(x, r) {
 				ps.add("C13", "list=%s Humanize changes membership at pos=%d kind=%d result=%s", args[1], x.pos, x.kind, showIvs(r))
